@@ -34,7 +34,9 @@ DESIGNS = {
 DUCTS = {'1': dict(ducts=1), '2f': dict(ducts=2, bypass_fraction=0.08, duct_t=[0.002, 0.003]),
          '2s': dict(ducts=2, bypass_fraction=0.0, duct_t=[0.002, 0.003]),
          '3': dict(ducts=3, bypass_fraction=0.1, duct_t=[0.0015, 0.0025, 0.003], byp_t=[0.0025, 0.0035]),
-         '3s': dict(ducts=3, bypass_fraction=0.0, duct_t=[0.0015, 0.0025, 0.003], byp_t=[0.0025, 0.0035])}
+         '3s': dict(ducts=3, bypass_fraction=0.0, duct_t=[0.0015, 0.0025, 0.003], byp_t=[0.0025, 0.0035]),
+         # outer bypass gap narrower than the inner one (the per-gap mass fluxes are then ordered the other way)
+         '3r': dict(ducts=3, bypass_fraction=0.2, duct_t=[0.0015, 0.0025, 0.003], byp_t=[0.0035, 0.002])}
 
 
 def power_spec(kind, rings, nduct, L, seed):
@@ -146,7 +148,7 @@ def cases_sweep(tier):
         base = dict(design='d3', ducts='1', fam=list(FAMS_WIRE[0]), re='trans', power='asym',
                     wall='flow', structure='bundle')
         for k, vals in (('power', ['pins', 'duct', 'cool']), ('wall', ['no_flow', 'duct_average']),
-                        ('fam', [list(f) for f in FAMS_WIRE]), ('ducts', ['3', '3s']),
+                        ('fam', [list(f) for f in FAMS_WIRE]), ('ducts', ['3', '3s', '3r']),
                         ('design', ['d4', 'd5']),
                         ('structure', ['multi', 'lf-simple', 'lf-6node'])):
             for v in vals:
